@@ -721,6 +721,69 @@ Proof.
               rewrite El, Er. exact H3.
 Qed.
 
+Lemma F_shape_exact : forall s level sp len n,
+  ends_in_special_go s level sp = false ->
+  exists p k r, F s level sp len n = p ++ repeat c_rbrace k /\ s = p ++ r /\
+                k = cdepth_from (match sp with None => level | Some d => S d end) p.
+Proof.
+  induction s as [|c t IH]; intros level sp len n He.
+  - destruct sp as [d|]; cbn [ends_in_special_go] in He; [discriminate|].
+    exists [], level, []. repeat split.
+  - cbn [ends_in_special_go] in He. fold (bs_head t) in He.
+    destruct sp as [d|]; cbn [F]; unfold is_lbrace, is_rbrace.
+    + destruct (N.eqb c c_lbrace) eqn:El.
+      * destruct (IH level (Some (S d)) len n He) as (p & k & r & H1 & H2 & H3).
+        exists (c :: p), k, r. rewrite H1, H2. repeat split. cbn [cdepth_from]. rewrite El. exact H3.
+      * destruct (N.eqb c c_rbrace) eqn:Er.
+        -- destruct d as [|d'].
+           ++ destruct (n <=? len + 1)%Z.
+              ** apply N.eqb_eq in Er; subst c. exists [], 1, (c_rbrace :: t). repeat split.
+              ** destruct (IH 0 None (len + 1)%Z n He) as (p & k & r & H1 & H2 & H3).
+                 exists (c :: p), k, r. rewrite H1, H2. repeat split. cbn [cdepth_from pred].
+                 rewrite El, Er. exact H3.
+           ++ destruct (IH level (Some d') len n He) as (p & k & r & H1 & H2 & H3).
+              exists (c :: p), k, r. rewrite H1, H2. repeat split. cbn [cdepth_from pred].
+              rewrite El, Er. exact H3.
+        -- destruct (IH level (Some d) len n He) as (p & k & r & H1 & H2 & H3).
+           exists (c :: p), k, r. rewrite H1, H2. repeat split. cbn [cdepth_from].
+           rewrite El, Er. exact H3.
+    + destruct (N.eqb c c_lbrace) eqn:El.
+      * destruct (Nat.eqb level 0 && bs_head t) eqn:Esp.
+        -- apply andb_prop in Esp as [E0 _]. apply Nat.eqb_eq in E0; subst level.
+           destruct (IH 0 (Some 0) len n He) as (p & k & r & H1 & H2 & H3).
+           exists (c :: p), k, r. rewrite H1, H2. repeat split. cbn [cdepth_from]. rewrite El. exact H3.
+        -- destruct (IH (S level) None len n He) as (p & k & r & H1 & H2 & H3).
+           exists (c :: p), k, r. rewrite H1, H2. repeat split. cbn [cdepth_from]. rewrite El. exact H3.
+      * destruct (N.eqb c c_rbrace) eqn:Er.
+        -- destruct level as [|l']; cbn [andb Nat.ltb Nat.leb pred] in He |- *.
+           ++ unfold is_brace, is_lbrace, is_rbrace. rewrite El, Er. cbn [orb].
+              destruct (IH 0 None len n He) as (p & k & r & H1 & H2 & H3).
+              exists (c :: p), k, r. rewrite H1, H2. repeat split. cbn [cdepth_from pred].
+              rewrite El, Er. exact H3.
+           ++ destruct (IH l' None len n He) as (p & k & r & H1 & H2 & H3).
+              exists (c :: p), k, r. rewrite H1, H2. repeat split. cbn [cdepth_from pred].
+              rewrite El, Er. exact H3.
+        -- cbn [andb]. unfold is_brace, is_lbrace, is_rbrace. rewrite El, Er. cbn [orb].
+           destruct (n <=? len + 1)%Z.
+           ++ exists [c], level, t. repeat split. cbn [cdepth_from]. rewrite El, Er. reflexivity.
+           ++ destruct (IH level None (len + 1)%Z n He) as (p & k & r & H1 & H2 & H3).
+              exists (c :: p), k, r. rewrite H1, H2. repeat split. cbn [cdepth_from].
+              rewrite El, Er. exact H3.
+Qed.
+
+Lemma prefix_shape_exact_lemma s n out :
+  ends_in_special s = false -> bibtex_prefix s n = Ok out ->
+  exists p k, out = p ++ repeat c_rbrace k /\ is_prefix p s /\ k = cdepth_from 0 p.
+Proof.
+  unfold bibtex_prefix. intros He H. destruct (0 <? n)%Z eqn:En.
+  - apply Z.ltb_lt in En. inv_ok.
+    pose proof (prefix_fused s 0 None r 0 n 0 En Hr) as Hf. cbn beta iota in Hf.
+    unfold pfx in Hf. cbv zeta in Hf. rewrite Hf.
+    destruct (F_shape_exact s 0 None 0 n He) as (p & k & r' & H1 & H2 & H3).
+    exists p, k. split; [exact H1|]. split; [exists r'; exact H2|exact H3].
+  - inv_ok. exists [], 0. repeat split. exists s. reflexivity.
+Qed.
+
 Lemma prefix_is_prefix_lemma s n out :
   bibtex_prefix s n = Ok out ->
   exists p k, out = p ++ repeat c_rbrace k /\ is_prefix p s /\ k <= cdepth_from 0 p.
